@@ -62,14 +62,14 @@ SignViolations(n, prior, x, line) ==
       lock == LastLock(prior, x.r)
   IN   FailIf(\E i \in DOMAIN prior : prior[i].t = x.t /\ prior[i].r = x.r /\ (prior[i].v # x.v \/ prior[i].pol # x.pol),
               [l |-> line, inv |-> "NoEquivocation", class |-> x.t])
-  \cup FailIf(x.t = "precommit" /\ x.v # Nil /\ ~(x.v \in SeqToSet(x.held)),
+  \cup FailIf(x.t = "precommit" /\ x.v # Nil /\ ~(\E h \in SeqToSet(x.held) : SameBlock(h, x.v)),
               [l |-> line, inv |-> "PrecommitJustified", class |-> "block not held"])
   \cup FailIf(x.t = "precommit" /\ x.v # Nil /\ ~([r |-> x.r, v |-> x.v] \in polk),
               [l |-> line, inv |-> "PrecommitJustified", class |-> "no polka in that round"])
-  \cup FailIf(x.t = "prevote" /\ lock.v # Nil /\ x.v # lock.v
-                /\ ~(\E q \in polk : q.r > lock.r /\ q.r <= x.r /\ q.v # lock.v),
+  \cup FailIf(x.t = "prevote" /\ lock.v # Nil /\ ~SameBlock(x.v, lock.v)
+                /\ ~(\E q \in polk : q.r > lock.r /\ q.r <= x.r /\ ~SameBlock(q.v, lock.v)),
               [l |-> line, inv |-> "LockRespected", class |-> "prevote against lock without newer polka"])
-  \cup FailIf(x.t = "prevote" /\ x.v # Nil /\ ~(x.v \in SeqToSet(x.held)),
+  \cup FailIf(x.t = "prevote" /\ x.v # Nil /\ ~(\E h \in SeqToSet(x.held) : SameBlock(h, x.v)),
               [l |-> line, inv |-> "PrevoteHeld", class |-> "prevoted a block it does not hold"])
 
 RECURSIVE SignsViol(_, _, _, _)
@@ -136,9 +136,10 @@ StepDecision(e) ==
   LET n == e.n IN
   /\ dec' = [dec EXCEPT ![n] = e.v]
   /\ viol' = viol
-       \cup FailIf(\E o \in Corr : o # n /\ dec[o] # Nil /\ dec[o] # e.v,
+       \cup FailIf(\E o \in Corr : o # n /\ dec[o] # Nil /\ ~SameBlock(dec[o], e.v),
                    [l |-> l, inv |-> "Agreement", class |-> "two correct nodes decided different blocks"])
        \cup FailIf(~e.valid, [l |-> l, inv |-> "DecisionValid", class |-> "decided block fails ValidateBlock"])
+       \* e.v is the BlockID (hash AND part-set header) under which the block was stored; "for exactly that block"
        \cup FailIf(e.commitFor # e.v \/ ~StrictQuorum(SumPower(SeqToSet(e.signers) \cap Vals)),
                    [l |-> l, inv |-> "DecisionCertified", class |-> "seen commit does not carry +2/3 valid precommits for the decided block"])
        \cup FailIf(st[n].decision # e.v, [l |-> l, inv |-> "StoreMatches", class |-> "stored block differs from decision"])
